@@ -383,7 +383,13 @@ pub fn initialize_check(ctx: &mut Ctx, w: &World, a: &Agreed, d: &EstD, expect: 
         Some(_) => vec![Real::V("some".into()), Real::G1(book.g1a(d.st.c)), Real::G1(book.g1a(d.cl.c))],
         None => vec![Real::V("none".into())],
     };
-    let _ = ctx.expect(&op, &reals);
+    let (agree, mtoks) = ctx.expect_toks(&op, &reals);
+    if !agree && out.is_some() && matches!(mtoks.first(), Some(Tok::V(v)) if v == "none") {
+        // the model's acceptance predicate is the one the soundness theorems are about: a proof the real verifier
+        // accepts although the model rejects it is a concrete failing input
+        ctx.violation(&format!("initialize accepts an establish proof ({}) that the model's acceptance predicate rejects", what),
+            json!({"class": format!("accepted-although-the-model-rejects:{}", what), "agreed": {"cid": hex_s(&a.cid_s), "cb": a.cb, "mb": a.mb, "context": hex::encode(&a.ctx_bytes)}, "proof_bytes": hex::encode(d.bytes(&book)), "pk": pk_args(&w.kpd.pk)}));
+    }
     ctx.count(&format!("initialize:{}:{}", what, out.is_some()));
     if let Some(e) = expect {
         if out.is_some() != e {
